@@ -152,10 +152,15 @@ def _atoms_nat(f):
     return [{"n": dec.to_dec(c), "m": dec.to_dec(a.mass), "mnat": dec.to_dec(_natural(a).mass)} for a, c in f.atoms.items()]
 
 
+def _t(t):
+    from .formexec import _tab
+    return _tab(t["T"]) if t.get("T") else None
+
+
 def _natd(t):
     import periodictable as P
     how, val = t["how"], t.get("value")
-    base = build(t["compound"])
+    base = build(t["compound"], t.get("T"))
     if how == "none":
         f = P.formula(base)
     elif how == "kw_density":
@@ -233,7 +238,11 @@ def _vol(t):
             ev["pf"] = dec.to_dec(pf)
         return ev
     kw = dict((k, t[k]) for k in ("a", "b", "c", "alpha", "beta", "gamma") if t.get(k) is not None)
-    V = f.volume(**kw)
+    if t.get("a_positional"):         # the first lattice parameter positional, the others by keyword
+        a0 = kw.pop("a")
+        V = f.volume(a0, **kw)
+    else:
+        V = f.volume(**kw)
     a = t["a"]
     b = t["b"] if t.get("b") is not None else a
     c = t["c"] if t.get("c") is not None else a
